@@ -55,8 +55,12 @@ class CallGraph:
                         if not tg:
                             nm = c.get("res") or c["fn"]
                             self.external[nm] = self.external.get(nm, 0) + 1
+                        # a trait call that could not be resolved statically (receiver is a type parameter):
+                        # expanded to every workspace impl, but tagged so precise clients can leave it out
+                        ekind = "generic" if c.get("rk") in ("unresolved", "error") and c.get("trait") else "call"
                         for x in tg:
-                            out.append((x, "call", bb, F.call_loc(t)))
+                            # the trait's own provided method is always a possible target
+                            out.append((x, "call" if x == c["fn"] else ekind, bb, F.call_loc(t)))
                     # function items passed as arguments
                     for a in F.call_args(t):
                         ca = F.op_const(a)
@@ -93,8 +97,9 @@ class CallGraph:
         c = F.callee(term)
         return self._targets(c) if c is not None else []
 
-    def reach(self, roots, stop=()):
-        """Keys of all bodies reachable from roots (inclusive). `stop`: keys not expanded."""
+    def reach(self, roots, stop=(), skip_kinds=()):
+        """Keys of all bodies reachable from roots (inclusive). `stop`: keys not expanded;
+        `skip_kinds`: edge kinds not followed (e.g. "generic")."""
         seen = set()
         st = list(roots)
         stop = set(stop)
@@ -105,8 +110,8 @@ class CallGraph:
             seen.add(x)
             if x in stop:
                 continue
-            for (y, _k, _bb, _loc) in self.edges.get(x, ()):
-                if y not in seen:
+            for (y, k, _bb, _loc) in self.edges.get(x, ()):
+                if y not in seen and k not in skip_kinds:
                     st.append(y)
         return seen
 
